@@ -273,22 +273,22 @@ def inject(prog, cls, rng):
             e = s.get()
             if e[0] == "field":
                 bt = expr_type(e[1], s.env, fns)
-                if bt and core.is_struct(bt):
+                if bt and core.is_struct(bt) and not core.is_array(bt):
                     e[2] = len(core.fields_of(bt)); return m, s.ctx + ("field-read",)
         for s in ssites:
             st = s.get()
-            if st[0] == "assignf":
+            if st[0] == "assignf" and not core.is_array(s.env[st[1]]):
                 st[2] = len(core.fields_of(s.env[st[1]])); return m, s.ctx + ("field-assign",)
     if cls == "struct-missing-field":
         for s in esites:
             e = s.get()
-            if e[0] == "slit" and len(e[2]) > 0:
+            if e[0] == "slit" and len(e[2]) > 0 and e[1] < core.NSTRUCT:      # fewer initialisers than a fixed array holds are legal
                 e[2].pop(); return m, s.ctx + ("struct-literal",)
     if cls == "struct-extra-field":
         for s in esites:
             e = s.get()
             if e[0] == "slit":
-                e[2].append(["lit", "i32", 1]); return m, s.ctx + ("struct-literal",)
+                e[2].append(["lit", "i32", 1]); return m, s.ctx + ("array-literal" if e[1] >= core.NSTRUCT else "struct-literal",)
     if cls == "struct-mistyped-field":
         cands = []
         for s in esites:
